@@ -118,12 +118,30 @@ func parseHelp(txt string) *parsedHelp {
 	return ph
 }
 
-// entries splits an option/command list section into entries: a head line has exactly 4 leading spaces.
+// entries splits an option/command list section into entries: a head line carries the smallest
+// indentation found in the section (continuation lines of descriptions are indented deeper).
 func entries(section string) []helpEntry {
 	var out []helpEntry
+	ind := -1
 	for _, line := range strings.Split(section, "\n") {
-		if strings.HasPrefix(line, "    ") && len(line) > 4 && line[4] != ' ' {
-			head := strings.Fields(line[4:])[0]
+		if strings.TrimSpace(line) == "" {
+			continue
+		}
+		n := len(line) - len(strings.TrimLeft(line, " "))
+		if n == 0 {
+			continue // trailing free text after the last section ("Use '... help <command>' ...")
+		}
+		if ind < 0 || n < ind {
+			ind = n
+		}
+	}
+	if ind < 0 {
+		return nil
+	}
+	pre := strings.Repeat(" ", ind)
+	for _, line := range strings.Split(section, "\n") {
+		if strings.HasPrefix(line, pre) && len(line) > ind && line[ind] != ' ' {
+			head := strings.Fields(line[ind:])[0]
 			out = append(out, helpEntry{Head: head, Text: line + "\n"})
 			continue
 		}
